@@ -206,6 +206,7 @@ class FnState:
         self.tmpn = 0
         self.loopn = 0
         self.lambdas = {}     # var id -> LambdaExpr
+        self.lambda_fns = {}  # var id -> operator() of a capture-less lambda lowered as a function
         self.refvars = set()  # ids of locals/params lowered to pointers
         self.this_type = None
         self.try_stack = []   # labels of enclosing catch dispatchers
@@ -1026,8 +1027,14 @@ class Lowering:
         ks = kids(n)
         ctx = Ctx(fs)
         v = self.expr(ks[0], ctx)
-        out = ['case %s: ;' % v]
-        for c in ks[1:]:
+        rest = ks[1:]
+        if n.get('isGNURange'):
+            hi = self.expr(ks[1], ctx)       # GNU extension `case LO ... HI:`
+            out = ['case %s ... %s: ;' % (v, hi)]
+            rest = ks[2:]
+        else:
+            out = ['case %s: ;' % v]
+        for c in rest:
             ls = self.stmt(c, fs)
             if len(ls) > 1 and c.get('kind') not in ('CaseStmt', 'DefaultStmt', 'DeclStmt', 'CompoundStmt', 'LabelStmt'):
                 # temporaries hoisted out of the statement stay local to it (not to the whole switch block)
@@ -1063,9 +1070,18 @@ class Lowering:
         if init is not None:
             lam = self.find_lambda(init)
             if lam is not None:
-                self.check_lambda(lam)
-                fs.lambdas[d['id']] = lam
-                return ['/* lambda %s inlined at its call sites */' % name]
+                try:
+                    self.check_lambda(lam)
+                    fs.lambdas[d['id']] = lam
+                    return ['/* lambda %s inlined at its call sites */' % name]
+                except Unsupported:
+                    # a lambda that captures nothing is an ordinary function: its operator() is lowered as one
+                    # and called with a null closure pointer
+                    op = self.stateless_lambda_op(lam)
+                    if op is None:
+                        raise
+                    fs.lambda_fns[d['id']] = op
+                    return ['/* lambda %s (no captures) lowered as a function of its own */' % name]
         ctx = Ctx(fs)
         if self.is_ref(t):
             fs.refvars.add(d['id'])
@@ -1085,6 +1101,13 @@ class Lowering:
                 break
             n = kids(n)[0]
         return n if n.get('kind') == 'LambdaExpr' else None
+
+    def stateless_lambda_op(self, lam):
+        rec = kids(lam)[0]
+        if any(k.get('kind') == 'FieldDecl' for k in kids(rec)):
+            return None
+        op = [k for k in kids(rec) if k.get('kind') == 'CXXMethodDecl' and k.get('name') == 'operator()']
+        return op[0] if len(op) == 1 else None
 
     def check_lambda(self, lam):
         # only: captures by reference (or this), no parameters, body == { return E; }
@@ -1594,7 +1617,7 @@ class Lowering:
                     return self.cfg.get('record_default', {}).get(ct, '(%s){0}' % ct)
                 if len(args) == 1 and (self.is_temporary(args[0]) or '&&' in ctor_t):
                     return self.expr(args[0], ctx)      # move (incl. `return local;`): the model's struct copy
-        rec = self.find_record(self.strip_cvref(t))
+        rec = self.find_record(self.strip_cvref(t)) or self.find_record_via_typedef(self.strip_cvref(t))
         ext = self.extern_for(self.strip_cvref(t) + '::' + 'ctor|' + ctor_t)
         if ext:
             args = [a for a in args if a.get('kind') != 'CXXDefaultArgExpr']   # defaults are the model's business
@@ -1820,6 +1843,9 @@ class Lowering:
                 body = self.check_lambda(lam)
                 self.report['lambdas_inlined'] += 1
                 return '(%s)' % self.expr(body, ctx)
+            if base.get('kind') == 'DeclRefExpr' and base['referencedDecl']['id'] in getattr(ctx.fn, 'lambda_fns', {}):
+                op = ctx.fn.lambda_fns[base['referencedDecl']['id']]
+                return self.call(op, '0', args[1:], n, ctx, discard)
         if decl.get('kind') in ('CXXMethodDecl',):
             # member operator: first argument is the object
             q = self.tu.qualname(self.tu.definition(decl))
